@@ -13,7 +13,7 @@ try:
         print("pattern occurs %d times" % n); sys.exit(3)
     open(p, "w").write(s.replace(old, new))
     for pid in pids.split(","):
-        r = subprocess.run(["python3-vt", "-m", "fverif", "check", pid, "--repo", tmp], cwd="/verif", capture_output=True, text=True,
+        r = subprocess.run(["python3-vt", "-m", "fverif", "check", pid, "--repo", tmp], cwd="/verif", capture_output=True, text=True, timeout=900,
                            env=dict(os.environ, FVERIF_EVIDENCE_DIR=os.path.join(tmp, "ev"), FVERIF_REPLAY_DIR=os.path.join(tmp, "rp")))
         out = r.stdout.strip().splitlines()
         print(pid, "exit", r.returncode)
